@@ -77,12 +77,22 @@ func listItem(block string) string {
 }
 
 // YAML renders the policy below the top-level key "seccomp".
-func YAML(p *spec.Policy, seed uint64) string {
+func YAML(p *spec.Policy, seed uint64) string { return YAMLExtra(p, seed, nil) }
+
+// YAMLExtra is YAML with further keys in the group mappings: extra(gi) returns complete "key: value\n" lines (or "") for
+// group gi, placed among the documented keys in generated order. The documented dialect has no such keys.
+func YAMLExtra(p *spec.Policy, seed uint64, extra func(gi int) string) string {
 	r := gen.NewRng(seed)
 	var groups strings.Builder
-	for _, g := range p.Groups {
+	for gi, g := range p.Groups {
 		parts := map[string]string{}
 		keys := []string{"action"}
+		if extra != nil {
+			if x := extra(gi); x != "" {
+				keys = append(keys, "extra")
+				parts["extra"] = x
+			}
+		}
 		parts["action"] = "action: " + spell(r, oracle.ActionName(g.Action)) + "\n"
 		if len(g.Names) > 0 || r.Intn(3) == 0 {
 			keys = append(keys, "names")
